@@ -234,11 +234,19 @@ fn gen_cm(cx: &mut Ctx, thorough: bool) {
     // (a) exhaustive small: every pair of label vectors over three usize labels / two bools / three strings
     let ualpha: [usize; 3] = [3, 7, 12];
     let salpha: [&str; 3] = ["B", "ab", "b"]; // Rust's Ord on strings: "B" < "ab" < "b"
-    let (nu, nb, ns) = if thorough { (4, 6, 3) } else { (3, 4, 2) };
+    let (nu, nb, ns) = if thorough { (4, 5, 3) } else { (3, 4, 2) };
+    let mut cnt4 = 0u64;
     for n in 0..=nu {
         let vs = all_vectors(3, n);
         for p in &vs {
             for t in &vs {
+                // thorough tier: lengths up to 3 completely, every third pair of length 4
+                if n == 4 {
+                    cnt4 += 1;
+                    if cnt4 % 3 != 0 {
+                        continue;
+                    }
+                }
                 let pv: Vec<usize> = p.iter().map(|&i| ualpha[i]).collect();
                 let tv: Vec<usize> = t.iter().map(|&i| ualpha[i]).collect();
                 cx.cm_case(&pv, &tv, |l| *l as u64, "labels_usize", "exhaustive", false);
@@ -266,7 +274,7 @@ fn gen_cm(cx: &mut Ctx, thorough: bool) {
         }
     }
     // (b) random longer vectors: skewed class frequencies, label sets that differ between the two sides
-    let nrand = if thorough { 2500 } else { 320 };
+    let nrand = if thorough { 800 } else { 320 };
     for it in 0..nrand {
         let mut r = cx.rng.fork();
         let n = if r.chance(0.1) { 100 + r.below(201) as usize } else { 4 + r.below(60) as usize };
@@ -433,6 +441,10 @@ fn gen_roc(cx: &mut Ctx, thorough: bool) {
                 if !thorough && n == 4 && cnt % 3 != 0 {
                     continue;
                 }
+                // thorough tier: lengths 2..4 completely, every 24th case of length 5
+                if n == 5 && cnt % 24 != 0 {
+                    continue;
+                }
                 let oll = n <= 3 || cnt % 16 == 0;
                 cx.roc_case(&scores, &labels, "exhaustive_grid", oll, false);
             }
@@ -440,7 +452,7 @@ fn gen_roc(cx: &mut Ctx, thorough: bool) {
     }
     // (b) structured random: ties, boundary scores, scores closer than the 1e-10 grouping threshold, single-class
     //     vectors, negative scores (dropped by roc)
-    let nrand = if thorough { 3000 } else { 420 };
+    let nrand = if thorough { 1000 } else { 420 };
     let eps = 1e-10f32;
     for it in 0..nrand {
         let mut r = cx.rng.fork();
@@ -631,7 +643,7 @@ fn rel_close(x: f64, y: f64, tol: f64) -> bool {
 }
 
 fn gen_reg(cx: &mut Ctx, thorough: bool) {
-    let nrand = if thorough { 4000 } else { 400 };
+    let nrand = if thorough { 1200 } else { 400 };
     for it in 0..nrand {
         let mut r = cx.rng.fork();
         let n = if r.chance(0.08) { 60 + r.below(241) as usize } else { 1 + r.below(40) as usize };
@@ -720,7 +732,7 @@ fn run_sil(x: &[Vec<f64>], labels: &[usize]) -> Result<f64, String> {
 }
 
 fn gen_sil(cx: &mut Ctx, thorough: bool) {
-    let nrand = if thorough { 1500 } else { 220 };
+    let nrand = if thorough { 500 } else { 220 };
     for it in 0..nrand {
         let mut r = cx.rng.fork();
         let d = 1 + r.below(3) as usize;
@@ -805,7 +817,7 @@ fn run_pearson(x: &[Vec<f64>]) -> Result<Vec<f64>, String> {
 }
 
 fn gen_pearson(cx: &mut Ctx, thorough: bool) {
-    let nrand = if thorough { 1200 } else { 200 };
+    let nrand = if thorough { 400 } else { 200 };
     for it in 0..nrand {
         let mut r = cx.rng.fork();
         let p = 2 + r.below(3) as usize;
